@@ -1,0 +1,180 @@
+//! Verification hooks (compiled only with `--cfg feoxdb_verif`).
+//!
+//! Everything here is inert until a consumer is installed: with no consumer every
+//! hook site is a single relaxed load. Nothing in this module changes the control
+//! flow of the store by itself, wakes a worker or issues I/O.
+
+use std::cell::Cell;
+use std::sync::atomic::{AtomicBool, AtomicU64, AtomicUsize, Ordering};
+use std::sync::Arc;
+
+use parking_lot::RwLock;
+
+// ---------------------------------------------------------------------------------------
+// H3: clock override
+// ---------------------------------------------------------------------------------------
+
+static GLOBAL_CLOCK_SET: AtomicBool = AtomicBool::new(false);
+static GLOBAL_CLOCK: AtomicU64 = AtomicU64::new(0);
+
+thread_local! {
+    static THREAD_CLOCK: Cell<Option<u64>> = const { Cell::new(None) };
+}
+
+/// Install (Some) or remove (None) a clock value for the calling thread only.
+pub fn set_thread_clock(now: Option<u64>) {
+    THREAD_CLOCK.with(|clock| clock.set(now));
+}
+
+/// Install (Some) or remove (None) a process-wide clock value. A thread clock wins.
+pub fn set_global_clock(now: Option<u64>) {
+    match now {
+        Some(now) => {
+            GLOBAL_CLOCK.store(now, Ordering::SeqCst);
+            GLOBAL_CLOCK_SET.store(true, Ordering::SeqCst);
+        }
+        None => GLOBAL_CLOCK_SET.store(false, Ordering::SeqCst),
+    }
+}
+
+#[inline]
+pub(crate) fn clock_override() -> Option<u64> {
+    if let Some(now) = THREAD_CLOCK.with(|clock| clock.get()) {
+        return Some(now);
+    }
+    if GLOBAL_CLOCK_SET.load(Ordering::Relaxed) {
+        return Some(GLOBAL_CLOCK.load(Ordering::SeqCst));
+    }
+    None
+}
+
+// ---------------------------------------------------------------------------------------
+// H1 / H1b: device I/O observer, fault decision, plain-I/O switch
+// ---------------------------------------------------------------------------------------
+
+#[derive(Clone, Copy, Debug, PartialEq, Eq)]
+pub enum IoKind {
+    /// `pwrite` of `data` at `offset`
+    Write,
+    /// `fsync`
+    Fsync,
+    /// `pread` (observe only; the decision is ignored)
+    Read,
+    /// one write queued on the io_uring submission (data path, ring enabled)
+    UringWrite,
+}
+
+pub struct IoEvent<'a> {
+    pub fd: i32,
+    pub kind: IoKind,
+    pub offset: u64,
+    pub data: &'a [u8],
+}
+
+#[derive(Clone, Copy, Debug, PartialEq, Eq)]
+pub enum IoDecision {
+    Proceed,
+    /// Report `errno` without touching the device.
+    FailBefore(i32),
+    /// Perform the operation, then report `errno`.
+    FailAfter(i32),
+}
+
+pub trait IoConsumer: Send + Sync {
+    /// Called before the operation; the answer decides what happens to it.
+    fn before(&self, event: &IoEvent<'_>) -> IoDecision;
+    /// Called after the operation ran (or was suppressed) with the outcome the caller sees.
+    fn after(&self, event: &IoEvent<'_>, ok: bool);
+}
+
+static IO_ACTIVE: AtomicBool = AtomicBool::new(false);
+static IO_CONSUMER: RwLock<Option<Arc<dyn IoConsumer>>> = RwLock::new(None);
+static FORCE_PLAIN_IO: AtomicBool = AtomicBool::new(false);
+
+pub fn set_io_consumer(consumer: Option<Arc<dyn IoConsumer>>) {
+    let active = consumer.is_some();
+    *IO_CONSUMER.write() = consumer;
+    IO_ACTIVE.store(active, Ordering::SeqCst);
+}
+
+/// When set, every `DiskIO` created afterwards uses `pwrite` + `fsync` instead of io_uring.
+pub fn set_force_plain_io(force: bool) {
+    FORCE_PLAIN_IO.store(force, Ordering::SeqCst);
+}
+
+#[inline]
+pub(crate) fn force_plain_io() -> bool {
+    FORCE_PLAIN_IO.load(Ordering::Relaxed)
+}
+
+#[inline]
+pub(crate) fn io_before(fd: i32, kind: IoKind, offset: u64, data: &[u8]) -> IoDecision {
+    if !IO_ACTIVE.load(Ordering::Relaxed) {
+        return IoDecision::Proceed;
+    }
+    let consumer = IO_CONSUMER.read().clone();
+    match consumer {
+        Some(consumer) => consumer.before(&IoEvent {
+            fd,
+            kind,
+            offset,
+            data,
+        }),
+        None => IoDecision::Proceed,
+    }
+}
+
+#[inline]
+pub(crate) fn io_after(fd: i32, kind: IoKind, offset: u64, data: &[u8], ok: bool) {
+    if !IO_ACTIVE.load(Ordering::Relaxed) {
+        return;
+    }
+    let consumer = IO_CONSUMER.read().clone();
+    if let Some(consumer) = consumer {
+        consumer.after(
+            &IoEvent {
+                fd,
+                kind,
+                offset,
+                data,
+            },
+            ok,
+        );
+    }
+}
+
+// ---------------------------------------------------------------------------------------
+// H2: named scheduling points
+// ---------------------------------------------------------------------------------------
+
+pub trait SchedController: Send + Sync {
+    /// The arriving thread calls this; the controller may delay or (boundedly) park it.
+    fn arrive(&self, point: &'static str, a: u64, b: u64);
+}
+
+static SCHED_ACTIVE: AtomicBool = AtomicBool::new(false);
+static SCHED_CONTROLLER: RwLock<Option<Arc<dyn SchedController>>> = RwLock::new(None);
+static SCHED_ARRIVALS: AtomicUsize = AtomicUsize::new(0);
+
+pub fn set_sched_controller(controller: Option<Arc<dyn SchedController>>) {
+    let active = controller.is_some();
+    *SCHED_CONTROLLER.write() = controller;
+    SCHED_ACTIVE.store(active, Ordering::SeqCst);
+}
+
+/// Total number of scheduling-point arrivals seen while a controller was installed.
+pub fn sched_arrivals() -> usize {
+    SCHED_ARRIVALS.load(Ordering::Relaxed)
+}
+
+#[inline]
+pub(crate) fn sched_point(point: &'static str, a: u64, b: u64) {
+    if !SCHED_ACTIVE.load(Ordering::Relaxed) {
+        return;
+    }
+    let controller = SCHED_CONTROLLER.read().clone();
+    if let Some(controller) = controller {
+        SCHED_ARRIVALS.fetch_add(1, Ordering::Relaxed);
+        controller.arrive(point, a, b);
+    }
+}
